@@ -529,7 +529,10 @@ func genHistory(t *rapid.T) history {
 }
 
 func props() []rp.Prop {
-	return []rp.Prop{rp.P[history]{Name: "history", Checks: ev.Pick(6000, 1500000) / ev.Shards(), Gen: genHistory, Check: checkHistory}}
+	return []rp.Prop{
+		rp.P[history]{Name: "history", Checks: ev.Pick(6000, 1500000) / ev.Shards(), Gen: genHistory, Check: checkHistory},
+		rp.P[sliceCase]{Name: "slice-arguments", Checks: ev.Pick(4000, 400000) / ev.Shards(), Gen: genSlices, Check: checkSlices},
+	}
 }
 
 func TestC17(t *testing.T)    { rp.RunAll(t, props()...) }
